@@ -73,6 +73,10 @@ _ANSWER = [
     'oblige("accepted-contexts-entry", len(_aw) != 1 or (_ok and same(_aw[0][1].id, pc_id) and '
     'same(_aw[0][1].sop_class, proposed_sop) and same(_aw[0][1].supported_ts, _a.ts_sub_item.name)))',
 ]
+# The clauses speak of the context *as proposed*: the loop targets as bound at the head of the iteration
+# (the engine's ghost copies `_entry_<target>`), not the locals, which the body may rebind (cf. seed R5_C09).
+import re as _re
+_ANSWER = [_re.sub(r'\b(pc_id|proposed_sop|proposed_ts)\b', lambda m: '_entry_' + m.group(1), s) for s in _ANSWER]
 outer.for_prop('C09', tail=_ANSWER)
 
 
